@@ -28,6 +28,16 @@ static unsigned char* g_cov_map = nullptr;
 static uint32_t g_cov_n = 0;
 static char g_label[256] = "";
 static void (*g_stats_dump)() = nullptr;
+static const size_t* g_lane_pos = nullptr;
+
+static void print_lane_pos()
+{
+	if (!g_lane_pos) return;
+	fprintf(stderr, "LANEPOS");
+	for (int l = 0; l < L_COUNT; ++l) fprintf(stderr, " %s=%zu", LaneNames[l], g_lane_pos[l]);
+	fprintf(stderr, "\n");
+	fflush(stderr);
+}
 
 void steps_begin(uint64_t budget) { t_steps = 0; t_budget = budget; t_clock_on = true; }
 uint64_t steps_now() { return t_steps; }
@@ -81,6 +91,7 @@ static void first_library_frame(char* out, size_t outSize)
 	first_library_frame(site, sizeof site);
 	fprintf(stderr, "\nFATAL %s site=%s detail=%s run=%s\n", cls, site, detail ? detail : "", g_label);
 	fflush(stderr);
+	print_lane_pos();
 	if (g_stats_dump) g_stats_dump();
 	fflush(stdout);
 	_exit(code);
@@ -88,6 +99,7 @@ static void first_library_frame(char* out, size_t outSize)
 
 void set_run_label(const char* label) { strncpy(g_label, label, sizeof g_label - 1); g_label[sizeof g_label - 1] = 0; }
 void set_stats_dump(void (*fn)()) { g_stats_dump = fn; }
+void set_lane_positions(const size_t* pos) { g_lane_pos = pos; }
 
 // ------------------------------------------------------------------------------------------------
 // allocator front
@@ -278,7 +290,11 @@ static void on_sanitizer_death()
 	g_sched_on = false;
 	t_clock_on = false;
 	fprintf(stderr, "\nFATAL SANITIZER run=%s\n", g_label);
+	print_lane_pos();
+#ifndef SIM_NO_NEW_REPLACEMENT
+	// (not in the tsan flavour: instrumented code called from ThreadSanitizer's death callback deadlocks inside its runtime)
 	if (g_stats_dump) g_stats_dump();
+#endif
 	fflush(stdout);
 }
 
